@@ -2,8 +2,8 @@
 // VC18Start: real NewForwarder/loadState/mergeDescs/persistState/runPersistState, injected sink)
 // in lock-step with an event script against a scripted api.Client (the "server": a list of events,
 // positions are decimal indexes) and a recording/failing sink; the storage is the real file
-// storage. Sleeps of the worker are cut short through the worker's context (Done() is always
-// closed, Err() is nil until the stop). Projection: the requests the server saw, every hand-over to
+// storage. The worker's 5 s sleeps are under the driver's control through the worker's context
+// (Done() blocks until the driver ends the sleep; Err() is nil until the stop). Projection: the requests the server saw, every hand-over to
 // the sink with its verdict, desc position after a commit, the Position written to
 // forwarder.json, the position a restarted worker begins with, the worker's exit.
 package main
@@ -45,10 +45,11 @@ type Replay struct {
 	StepsMax int  `json:"-"`
 }
 
-// ---------- the worker's context: every utils.Sleep(ctx, 5s) of the worker ends when the driver says so ----------
-// Done() is only called by utils.Sleep (the scripted client ignores the context): each call hands a
-// fresh channel (a "sleep gate") to the driver, which closes it to end the sleep. Err() is nil until
-// the context is cancelled; cancelling opens the current gate, as a real context would.
+// ---------- the worker's context: every utils.Sleep(ctx, 5s) of the worker lasts until the driver ends it ----------
+// Done() is only called by utils.Sleep (the scripted client ignores the context). The call hands a
+// "sleep gate" to the driver and BLOCKS until the driver opens it (or the context is cancelled), then
+// returns a closed channel: the sleep ends at once and its 5 s timer never matters, because
+// time.After is only evaluated after Done() has returned. Err() is nil until the context is cancelled.
 type fastCtx struct {
 	mu     sync.Mutex
 	err    error
@@ -78,7 +79,11 @@ func (c *fastCtx) Done() <-chan struct{} {
 	case <-c.killed:
 		return closedCh
 	}
-	return g
+	select {
+	case <-g:
+	case <-c.killed:
+	}
+	return closedCh
 }
 func (c *fastCtx) Err() error {
 	c.mu.Lock()
@@ -233,7 +238,6 @@ type driver struct {
 	ps      *scall        // insink: the pending sink call
 	psStart int           // insink: position the batch was read at
 	gate    chan struct{} // head: the worker sleeps after a failure; closing the gate ends the sleep
-	gateAt  time.Time
 	bufQ    *qcall // head/accepted: the worker already sits in its next Query (no sleep on that path)
 	bufExit bool   // head/accepted: the worker already left the loop
 
@@ -242,7 +246,6 @@ type driver struct {
 	o        oracle
 	tag      map[string]int
 	err      error
-	unstable bool // a sleep gate was held for so long that the 5 s timer may have fired: discard the case
 }
 
 func posOf(s string) (int, bool) {
@@ -324,7 +327,7 @@ func (d *driver) settle(wantSink bool, where string) bool {
 			d.other(3, "batch-not-handed-to-sink", "the worker went to sleep instead of handing the batch over "+where)
 			return false
 		}
-		d.gate, d.gateAt = g, time.Now()
+		d.gate = g
 	case q := <-d.p.cl.arrive:
 		if wantSink {
 			q.reply <- qreply{err: errDead}
@@ -398,10 +401,6 @@ func (d *driver) apply(op Op) bool {
 			return true
 		}
 		if d.gate != nil {
-			if time.Since(d.gateAt) > 2*time.Second {
-				d.unstable = true
-				return false
-			}
 			d.p.wctx.open(d.gate)
 			d.gate = nil
 			if !d.settle(false, "after a sleep") {
@@ -805,9 +804,6 @@ func runCase(rp *Replay, r *Rng) (*Case, error) {
 	if d.err != nil {
 		return nil, d.err
 	}
-	if d.unstable {
-		return nil, nil
-	}
 	d.o.finish()
 	tags := []string{fmt.Sprintf("len:%d", len(rp.Ops)/20*20)}
 	for k := range d.tag {
@@ -862,9 +858,7 @@ func main() {
 			if err != nil {
 				return err
 			}
-			if cs != nil {
-				c.Add(*cs)
-			}
+			c.Add(*cs)
 			return c.Finish(rule)
 		}
 		cor := corpus()
@@ -887,10 +881,6 @@ func main() {
 		for i := range jobs {
 			if errs[i] != nil {
 				return errs[i]
-			}
-			if res[i] == nil {
-				c.Tag("discarded:sleep-gate-held-too-long")
-				continue
 			}
 			if i < len(cor) {
 				res[i].Stream = "corpus"
